@@ -527,11 +527,11 @@ pub fn property() -> Property {
         rule: "proptest-generated ordered pairs per type (Date, DateTime, Time, Timestamp, Zoned in one zone) x every permitted largest unit and the default: dates biased to month ends/leap days/limits and to pairs < 800 days apart; times of day equal, +-1ns/1s apart or arbitrary; zoned pairs built around every zone's transitions (same wall clock k days away, either side of a fold; pure elapsed deltas). Oracle: a + s == b exactly (through jiff's own addition, which C06/C08 decide independently), common sign, nothing above largest, uniform tail balanced, calendar units balanced by 'one more overshoots', since == -until fieldwise, duration_until == exact ns distance, no panic. Non-trivial: a != b and (month-end involved, or time-of-day opposes the date direction, or a/b in a fold, or the offsets of a and b differ).",
         assumptions: &["jiff's own checked_add is the metamorphic carrier (decided by C06/C08)", "Err is accepted only for nanosecond-largest differences beyond i64 (documented)"],
         checks: vec![
-            Box::new(Prop { name: "c07.date", quick: 800_000, thorough: 30_000_000, strategy: strat_date_pair, test: test_date }),
-            Box::new(Prop { name: "c07.datetime", quick: 800_000, thorough: 30_000_000, strategy: strat_dt_pair, test: test_datetime }),
-            Box::new(Prop { name: "c07.time", quick: 400_000, thorough: 10_000_000, strategy: strat_time_pair, test: test_time }),
-            Box::new(Prop { name: "c07.timestamp", quick: 400_000, thorough: 10_000_000, strategy: strat_ts_pair, test: test_timestamp }),
-            Box::new(Prop { name: "c07.zoned", quick: 1_500_000, thorough: 40_000_000, strategy: strat_zpair, test: test_zoned }),
+            Box::new(Prop { name: "c07.date", quick: 3_200_000, thorough: 30_000_000, strategy: strat_date_pair, test: test_date }),
+            Box::new(Prop { name: "c07.datetime", quick: 3_200_000, thorough: 30_000_000, strategy: strat_dt_pair, test: test_datetime }),
+            Box::new(Prop { name: "c07.time", quick: 1_600_000, thorough: 10_000_000, strategy: strat_time_pair, test: test_time }),
+            Box::new(Prop { name: "c07.timestamp", quick: 1_600_000, thorough: 10_000_000, strategy: strat_ts_pair, test: test_timestamp }),
+            Box::new(Prop { name: "c07.zoned", quick: 6_000_000, thorough: 40_000_000, strategy: strat_zpair, test: test_zoned }),
         ],
         floors: |rec| {
             rec.floor("c07.zoned:a-or-b-in-fold", "c07.zoned:cases", 0.05);
